@@ -706,6 +706,14 @@ MUTANTS.append(dict(prop="C13", name="benign-enforce-chain-through-locals-and-po
      "        wants_preload = bool(preload_content)\n        if wants_preload and not self._body:\n            preloaded = self.read(decode_content=decode_content)\n            self._body = preloaded"),
 ]))
 
+# ---- C15-R8 / F16: a repaired scratch variant must be silent (the URL-derived Host wins over a carried one)
+M("C15", "repair:F16-url-derived-host-wins", "poolmanager.py",
+  "        netloc = parse_url(url).netloc\n        if netloc:\n            headers_[\"Host\"] = netloc\n\n        if headers:\n            headers_.update(headers)\n        return headers_",
+  "        if headers:\n            headers_.update(headers)\n        netloc = parse_url(url).netloc\n        if netloc:\n            headers_[\"Host\"] = netloc\n        return headers_", rule=None, benign=True)
+M("C15", "forwarded-request-without-derived-host", "poolmanager.py",
+  "            headers = kw.get(\"headers\", self.headers)\n            kw[\"headers\"] = self._set_proxy_headers(url, headers)\n\n        return super().urlopen(method, url, redirect=redirect, **kw)",
+  "            return super().urlopen(method, url, redirect=redirect, **kw)\n\n        return super().urlopen(method, url, redirect=redirect, **kw)", rule="C15-R8")
+
 # --------------------------------------------------------------------------- seeded changes written by independent sub-agents (see /verif/seeded/)
 def S(prop, name, rule=None):
     MUTANTS.append(dict(prop=prop, name="seed:" + name, patch=f"seeded/{prop}-{name}/patch.diff", rule=rule, benign=False))
